@@ -39,7 +39,7 @@ func loadProgram(patterns []string, overlay map[string][]byte) (*Program, error)
 		Mode:       packages.LoadSyntax | packages.NeedModule,
 		Dir:        repoDir(),
 		BuildFlags: []string{"-tags=verif"},
-		Env: append(os.Environ(), "GOFLAGS=-mod=mod", "GOPROXY=off", "GOSUMDB=off", "GOTOOLCHAIN=local"),
+		Env:        append(os.Environ(), "GOFLAGS=-mod=mod", "GOPROXY=off", "GOSUMDB=off", "GOTOOLCHAIN=local"),
 		Overlay:    overlay,
 	}
 	pkgs, err := packages.Load(cfg, patterns...)
